@@ -73,7 +73,7 @@ impl Display for SessionId {
 #[derive(Debug)]
 pub struct Session<T: Transport> {
     transport_tx: Arc<Mutex<T::SendHandle>>,
-    transport_rx: Arc<Mutex<T::RecvHandle>>,
+    transport_rx: Arc<Mutex<RecvState<T>>>,
     context: Context,
     last_message_id: rpc::MessageId,
     requests: Arc<Mutex<HashMap<rpc::MessageId, OutstandingRequest>>>,
@@ -127,6 +127,11 @@ impl Context {
         &self.server_capabilities
     }
 }
+
+/// The receive half of the transport, together with a reply that has been taken off the transport
+/// but not yet stored in the outstanding request map (so that it survives cancellation of the
+/// reading future).
+type RecvState<T> = (<T as Transport>::RecvHandle, Option<rpc::PartialReply>);
 
 #[derive(Debug)]
 enum OutstandingRequest {
@@ -204,7 +209,7 @@ impl<T: Transport> Session<T> {
         let ((), server_hello) =
             tokio::try_join!(client_hello.send(&mut tx), ServerHello::recv(&mut rx))?;
         let transport_tx = Arc::new(Mutex::new(tx));
-        let transport_rx = Arc::new(Mutex::new(rx));
+        let transport_rx = Arc::new(Mutex::new((rx, None)));
         let session_id = server_hello.session_id();
         let server_capabilities = server_hello.capabilities();
         let client_capabilities = client_hello.capabilities();
@@ -284,7 +289,7 @@ impl<T: Transport> Session<T> {
     async fn recv<O>(
         message_id: rpc::MessageId,
         requests: Arc<Mutex<HashMap<rpc::MessageId, OutstandingRequest>>>,
-        rx: Arc<Mutex<<T as Transport>::RecvHandle>>,
+        rx: Arc<Mutex<RecvState<T>>>,
     ) -> Result<<O::Reply as IntoResult>::Ok, Error>
     where
         O: rpc::Operation,
@@ -308,11 +313,17 @@ impl<T: Transport> Session<T> {
                 break reply.into_result();
             };
             tracing::debug!("response to {message_id:?} not yet ready");
-            let reply = rpc::PartialReply::recv(&mut *rx_guard).await?;
+            if rx_guard.1.is_none() {
+                rx_guard.1 = Some(rpc::PartialReply::recv(&mut rx_guard.0).await?);
+            }
+            // if this future is dropped while waiting for the lock, the reply stays in `rx_guard.1`
+            // and is stored by the next reader
+            let mut requests_guard = requests.lock().await;
+            let Some(reply) = rx_guard.1.take() else {
+                continue;
+            };
             #[allow(clippy::significant_drop_in_scrutinee)]
-            match requests
-                .lock()
-                .await
+            match requests_guard
                 .get_mut(&reply.message_id())
                 .ok_or_else(|| Error::RequestNotFound {
                     message_id: reply.message_id(),
@@ -328,6 +339,7 @@ impl<T: Transport> Session<T> {
                     _ = mem::replace(pending, OutstandingRequest::Ready(reply));
                 }
             };
+            drop(requests_guard);
             drop(rx_guard);
         }
     }
